@@ -125,3 +125,26 @@ claim("C02",
 
 # every property is claimed; nothing is listed as not applicable as a whole. What each claim does NOT decide is
 # stated in its own "decides" text and in DESIGN.md section 5.
+
+# rules added after the independent seeding rounds 2-4 (see DESIGN.md section 8); appended to the technique text
+ADDENDA = {
+ "C01": "; in-place-mutation (freshness) rule over presignature / configuration methods and all signing rounds; Lagrange consumption over the whole domain",
+ "C02": "; whole-identifier rule on party.ID.Scalar; Lagrange rules on Config.PublicPoint",
+ "C03": "; first-copy-wins rule on Accept/store; party-loop completeness rule (no sub-slices of participant lists)",
+ "C05": "; overflow-safety rule on allocation bounds (no narrow arithmetic on untrusted sizes); direct nil-comparison rule for pre-shaped sub-protocol messages",
+ "C06": "; first-copy-wins rule; no-early-accept rule on checkBroadcastHash",
+ "C07": "; queue-key rule (messages filed under their own RoundNumber/From in both handlers)",
+ "C09": "; order rule (nothing hashed after the ssid snapshot); total-writer and complete-writer rules; session-identifier content-forwarding rule at every NewSession call",
+ "C10": "; frozen parameter table: security constants, bit bounds of the interval predicates, widths of the samplers",
+ "C11": "; session-identifier content-forwarding rule; byte-stream rule on TaggedHash",
+ "C12": "; operand-identity rule on Ciphertext.Mul/Add",
+ "C13": "; whole-array rule for fixed-size equality tests",
+ "C14": "; commit/reveal binding rule for chain-key contributions",
+ "C15": "; inverse-mapping rule between marshal and unmarshal; no-omitempty rule on wire structs",
+ "C16": "; R/S in-place pairing rule on SigEthereum; nonce-mask-from-adjusted-key rule",
+ "C19": "; total-writer and complete-writer rules over all WriterToWithDomain implementers",
+ "C20": "; slice-coverage rule for per-element validation loops (IDSlice.Valid)",
+}
+for _p, _a in ADDENDA.items():
+    t, x, n, r_ = CLAIMED[_p]
+    CLAIMED[_p] = (t + _a, x, n, r_)
